@@ -30,8 +30,8 @@ package types
 //@ end
 //@ func ValidateRequestContextUpdating(providers, serviceFeeCap, timeout, repeatedFrequency, repeatedTotal)
 //@   property C08, C13
-//@   trusted
 //@   returns err
+//@   ensures fields_ok: err == nil ==> timeout >= 0 && repeatedTotal >= 0 - 1 && (timeout != 0 && repeatedFrequency != 0 ==> repeatedFrequency >= timeout)
 //@ end
 // event tag built by string concatenation (pure)
 //@ func ActionTag(action, tagKeys)
